@@ -1,4 +1,4 @@
-/-! Prototype (full scope): histories of broadcasts on one pool, stale workers, pool drop (C06/C07). Core only.
+/-! Prototype (full scope + ghost state for C06: run counters, release/acquire publication): histories of broadcasts on one pool, stale workers, pool drop (C06/C07). Core only.
     Workers are indices 0..m-1 (index i runs task index i+1); the caller runs index 0 itself. -/
 namespace PoolFull
 
@@ -21,6 +21,16 @@ structure Sys where
   valid   : Bool              -- current task block alive
   dropped : Bool              -- pool dropped (senders gone)
   done    : Nat               -- broadcasts completed
+  -- ghost state (does not influence any guard)
+  runs    : Nat → Nat         -- how often worker j executed the current task
+  pub     : Nat → Bool        -- worker j's call end has been released into the counter's release chain
+  seen    : Nat → Bool        -- ... and acquired by the caller
+  relOk   : Bool              -- the decrement is (at least) a Release RMW
+  acqOk   : Bool              -- the caller's load is (at least) an Acquire load
+
+def updG {α} (f : Nat → α) (i : Nat) (v : α) : Nat → α := fun j => if j = i then v else f j
+@[simp] theorem updG_same {α} (f : Nat → α) (i v) : updG f i v i = v := by simp [updG]
+@[simp] theorem updG_other {α} (f : Nat → α) (i v j) (h : j ≠ i) : updG f i v j = f j := by simp [updG, h]
 
 def upd (f : Nat → WPc) (i : Nat) (v : WPc) : Nat → WPc := fun j => if j = i then v else f j
 @[simp] theorem upd_same (f i v) : upd f i v i = v := by simp [upd]
@@ -37,20 +47,26 @@ inductive Step : Sys → Sys → Prop
   /-- take the lock, spawn the missing threads, initialise the task block -/
   | begin (s n' rest) : s.c = .idle → s.todo = n' :: rest → s.dropped = false →
       Step s { s with todo := rest, n := n', m := max s.m n', c := .send 0, rc := n', valid := true,
-                      w := fun j => restale (s.w j) }
+                      w := fun j => restale (s.w j),
+                      runs := fun _ => 0, pub := fun _ => false, seen := fun _ => false }
   | send (s i) : s.c = .send i → i < s.n → s.w i = .idle →
       Step s { s with c := .send (i+1), w := upd s.w i .run }
   | sendDone (s i) : s.c = .send i → ¬ i < s.n → Step s { s with c := .run }
   | crun (s) : s.c = .run → Step s { s with c := .check }
-  | checkZero (s) : s.c = .check → s.rc = 0 → Step s { s with c := .idle, valid := false, done := s.done + 1 }
-  | checkPos (s) : s.c = .check → s.rc ≠ 0 → Step s { s with c := .park }
+  | checkZero (s) : s.c = .check → s.rc = 0 →
+      Step s { s with c := .idle, valid := false, done := s.done + 1,
+                      seen := if s.acqOk then (fun j => s.seen j || s.pub j) else s.seen }
+  | checkPos (s) : s.c = .check → s.rc ≠ 0 →
+      Step s { s with c := .park, seen := if s.acqOk then (fun j => s.seen j || s.pub j) else s.seen }
   | park (s) : s.c = .park → s.tok = true → Step s { s with c := .check, tok := false }
-  | wrun (s i) : s.w i = .run → Step s { s with w := upd s.w i .clone }
+  | wrun (s i) : s.w i = .run → Step s { s with w := upd s.w i .clone, runs := updG s.runs i (s.runs i + 1) }
   | wclone (s i) : s.w i = .clone → s.valid = true → Step s { s with w := upd s.w i .dec }
   | wdecLast (s i) : s.w i = .dec → s.valid = true → s.rc = 1 →
-      Step s { s with w := upd s.w i .unpark, rc := s.rc - 1 }
+      Step s { s with w := upd s.w i .unpark, rc := s.rc - 1,
+                      pub := if s.relOk then updG s.pub i true else s.pub }
   | wdec (s i) : s.w i = .dec → s.valid = true → s.rc ≠ 1 →
-      Step s { s with w := upd s.w i .after, rc := s.rc - 1 }
+      Step s { s with w := upd s.w i .after, rc := s.rc - 1,
+                      pub := if s.relOk then updG s.pub i true else s.pub }
   | wunpark (s i) : s.w i = .unpark → Step s { s with w := upd s.w i .after, tok := true }
   | wafter (s i) : s.w i = .after → Step s { s with w := upd s.w i .fin }
   | wunparkS (s i) : s.w i = .unparkS → Step s { s with w := upd s.w i .afterS, tok := true }
@@ -131,6 +147,9 @@ theorem cnt_zero_forall (p : WPc → Bool) (f : Nat → WPc) (k : Nat) (h : cnt 
       · simpa using hp
     · exact ih (by omega) j (by omega)
 
+/-- has executed the task of the current broadcast -/
+def called : WPc → Bool | .clone | .dec | .unpark | .after | .fin => true | _ => false
+
 def frontier : CPc → Nat → Nat
   | .send i, _ => i
   | _, n => n
@@ -152,10 +171,11 @@ structure Inv (s : Sys) : Prop where
   noExit : s.dropped = false → ∀ j, s.w j ≠ .exited
   dropI : s.dropped = true → s.c = .idle ∧ s.todo = []
 
-def init (todo : List Nat) (tok : Bool) : Sys :=
-  { todo, n := 0, m := 0, c := .idle, w := fun _ => .idle, rc := 0, tok, valid := false, dropped := false, done := 0 }
+def init (todo : List Nat) (tok relOk acqOk : Bool) : Sys :=
+  { todo, n := 0, m := 0, c := .idle, w := fun _ => .idle, rc := 0, tok, valid := false, dropped := false, done := 0,
+    runs := fun _ => 0, pub := fun _ => false, seen := fun _ => false, relOk, acqOk }
 
-theorem inv_init (todo tok) : Inv (init todo tok) := by
+theorem inv_init (todo tok r a) : Inv (init todo tok r a) := by
   constructor <;> simp [init, busy]
 
 
@@ -345,19 +365,25 @@ theorem inv_wexit (s : Sys) (h : Inv s) (i : Nat) (hd : s.dropped = true) (hi : 
   have hci := (dropI hd).1
   constructor <;> simp_all [frontier] <;> grind [upd, busy]
 
+/-- the invariant does not look at the ghost fields -/
+theorem inv_ghost_irrel (s : Sys) (r : Nat → Nat) (p q : Nat → Bool) (h : Inv s) :
+    Inv { s with runs := r, pub := p, seen := q } := by
+  obtain ⟨nm, sendB, waitB, sentB, rcEq, validB, unpB, wakeB, quiet, beyond, noExit, dropI⟩ := h
+  exact ⟨nm, sendB, waitB, sentB, rcEq, validB, unpB, wakeB, quiet, beyond, noExit, dropI⟩
+
 theorem inv_step (s s' : Sys) (h : Inv s) (hs : Step s s') : Inv s' := by
   cases hs with
-  | begin n' rest hc ht hd => exact inv_begin s h n' rest hc ht hd
+  | begin n' rest hc ht hd => exact inv_ghost_irrel _ _ _ _ (inv_begin s h n' rest hc ht hd)
   | send i hc hlt hidle => exact inv_send s h i hc hlt hidle
   | sendDone i hc hlt => exact inv_sendDone s h i hc hlt
   | crun hc => exact inv_crun s h hc
-  | checkZero hc hz => exact inv_checkZero s h hc hz
-  | checkPos hc hz => exact inv_checkPos s h hc hz
+  | checkZero hc hz => exact inv_ghost_irrel _ _ _ _ (inv_checkZero s h hc hz)
+  | checkPos hc hz => exact inv_ghost_irrel _ _ _ _ (inv_checkPos s h hc hz)
   | park hc ht => exact inv_park s h hc ht
-  | wrun i hw => exact inv_wrun s h i hw
+  | wrun i hw => exact inv_ghost_irrel _ _ _ _ (inv_wrun s h i hw)
   | wclone i hw hv => exact inv_wclone s h i hw hv
-  | wdecLast i hw hv h1 => exact inv_wdecLast s h i hw hv h1
-  | wdec i hw hv h1 => exact inv_wdec s h i hw hv h1
+  | wdecLast i hw hv h1 => exact inv_ghost_irrel _ _ _ _ (inv_wdecLast s h i hw hv h1)
+  | wdec i hw hv h1 => exact inv_ghost_irrel _ _ _ _ (inv_wdec s h i hw hv h1)
   | wunpark i hw => exact inv_wunpark s h i hw
   | wafter i hw => exact inv_wafter s h i hw
   | wunparkS i hw => exact inv_wunparkS s h i hw
@@ -366,13 +392,13 @@ theorem inv_step (s s' : Sys) (h : Inv s) (hs : Step s s') : Inv s' := by
   | wexit i hd hi hw => exact inv_wexit s h i hd hi hw
 
 /-- every reachable state satisfies the invariant -/
-inductive Reach (todo : List Nat) (tok : Bool) : Sys → Prop
-  | init : Reach todo tok (init todo tok)
-  | step (s s') : Reach todo tok s → Step s s' → Reach todo tok s'
+inductive Reach (todo : List Nat) (tok r a : Bool) : Sys → Prop
+  | init : Reach todo tok r a (init todo tok r a)
+  | step (s s') : Reach todo tok r a s → Step s s' → Reach todo tok r a s'
 
-theorem reach_inv (todo tok s) (h : Reach todo tok s) : Inv s := by
+theorem reach_inv (todo tok r a s) (h : Reach todo tok r a s) : Inv s := by
   induction h with
-  | init => exact inv_init todo tok
+  | init => exact inv_init todo tok r a
   | step s s' _ hs ih => exact inv_step s s' ih hs
 
 /-- C06: whenever a broadcast completes (the caller observes the count at zero and returns), every worker
@@ -623,4 +649,178 @@ theorem terminates : WellFounded (fun s' s : Sys => Inv s ∧ Step s s') := by
 
 #print axioms meas_decreases
 #print axioms terminates
+
+/-! ### C06 ghost invariants: exactly once per index, and release/acquire publication -/
+
+structure GInv (s : Sys) : Prop where
+  /-- a worker's run counter is 1 exactly when it has executed the current task, else 0 -/
+  runsB : s.c ≠ .idle → ∀ j, j < s.n → s.runs j = if called (s.w j) then 1 else 0
+  /-- with a Release decrement, whoever has decremented has published the end of its call -/
+  pubB  : s.c ≠ .idle → s.relOk = true → ∀ j, j < s.n → notDec (s.w j) = false → s.pub j = true
+
+theorem ginv_init (todo tok r a) : GInv (init todo tok r a) := by
+  constructor <;> simp [init]
+
+theorem waiting_not_called (x : WPc) (h : waiting x = true) : called x = false := by
+  cases x <;> simp_all [waiting, called]
+
+theorem ginv_step (s s' : Sys) (h : Inv s) (g : GInv s) (hs : Step s s') : GInv s' := by
+  have hI := h
+  obtain ⟨nm, sendB, waitB, sentB, rcEq, validB, unpB, wakeB, quiet, beyond, noExit, dropI⟩ := h
+  obtain ⟨runsB, pubB⟩ := g
+  cases hs with
+  | begin n' rest hc ht hd =>
+    have hw : ∀ j, waiting (restale (s.w j)) = true :=
+      fun j => restale_waiting _ (quiet hc j) (noExit hd j)
+    constructor
+    · intro _ j _; simp [waiting_not_called _ (hw j)]
+    · intro _ _ j _ hnd; have := (waiting_notDec _ (hw j)).1; simp_all
+  | send i hc hlt hidle =>
+    have hcne : s.c ≠ .idle := by simp [hc]
+    constructor
+    · intro _ j hj
+      have := runsB hcne j hj
+      by_cases hji : j = i
+      · subst hji; simp_all [called]
+      · simp_all [upd]
+    · intro _ hr j hj hnd
+      by_cases hji : j = i
+      · subst hji; simp [notDec] at hnd
+      · simp [upd, hji] at hnd; exact pubB hcne hr j hj hnd
+  | sendDone i hc hlt =>
+    have hcne : s.c ≠ .idle := by simp [hc]
+    exact ⟨fun _ => runsB hcne, fun _ => pubB hcne⟩
+  | crun hc =>
+    have hcne : s.c ≠ .idle := by simp [hc]
+    exact ⟨fun _ => runsB hcne, fun _ => pubB hcne⟩
+  | checkZero hc hz => constructor <;> simp
+  | checkPos hc hz =>
+    have hcne : s.c ≠ .idle := by simp [hc]
+    exact ⟨fun _ => runsB hcne, fun _ => pubB hcne⟩
+  | park hc ht =>
+    have hcne : s.c ≠ .idle := by simp [hc]
+    exact ⟨fun _ => runsB hcne, fun _ => pubB hcne⟩
+  | wrun i hw =>
+    constructor
+    · intro hcne j hj
+      have := runsB hcne j hj
+      by_cases hji : j = i
+      · subst hji; simp_all [called]
+      · simp_all [upd, updG]
+    · intro hcne hr j hj hnd
+      by_cases hji : j = i
+      · subst hji; simp [notDec] at hnd
+      · simp [upd, hji] at hnd; exact pubB hcne hr j hj hnd
+  | wclone i hw hv =>
+    constructor
+    · intro hcne j hj
+      have := runsB hcne j hj
+      by_cases hji : j = i
+      · subst hji; simp_all [called]
+      · simp_all [upd]
+    · intro hcne hr j hj hnd
+      by_cases hji : j = i
+      · subst hji; simp [notDec] at hnd
+      · simp [upd, hji] at hnd; exact pubB hcne hr j hj hnd
+  | wdecLast i hw hv h1 =>
+    constructor
+    · intro hcne j hj
+      have := runsB hcne j hj
+      by_cases hji : j = i
+      · subst hji; simp_all [called]
+      · simp_all [upd]
+    · intro hcne hr j hj hnd
+      have hr' : s.relOk = true := hr
+      by_cases hji : j = i
+      · subst hji; simp [hr']
+      · simp [upd, hji] at hnd; simp [hr', updG, hji]; exact pubB hcne hr' j hj hnd
+  | wdec i hw hv h1 =>
+    constructor
+    · intro hcne j hj
+      have := runsB hcne j hj
+      by_cases hji : j = i
+      · subst hji; simp_all [called]
+      · simp_all [upd]
+    · intro hcne hr j hj hnd
+      have hr' : s.relOk = true := hr
+      by_cases hji : j = i
+      · subst hji; simp [hr']
+      · simp [upd, hji] at hnd; simp [hr', updG, hji]; exact pubB hcne hr' j hj hnd
+  | wunpark i hw =>
+    constructor
+    · intro hcne j hj
+      have := runsB hcne j hj
+      by_cases hji : j = i
+      · subst hji; simp_all [called]
+      · simp_all [upd]
+    · intro hcne hr j hj hnd
+      by_cases hji : j = i
+      · subst hji; exact pubB hcne hr j hj (by simp [hw, notDec])
+      · simp [upd, hji] at hnd; exact pubB hcne hr j hj hnd
+  | wafter i hw =>
+    constructor
+    · intro hcne j hj
+      have := runsB hcne j hj
+      by_cases hji : j = i
+      · subst hji; simp_all [called]
+      · simp_all [upd]
+    · intro hcne hr j hj hnd
+      by_cases hji : j = i
+      · subst hji; exact pubB hcne hr j hj (by simp [hw, notDec])
+      · simp [upd, hji] at hnd; exact pubB hcne hr j hj hnd
+  | wunparkS i hw =>
+    constructor
+    · intro hcne j hj
+      have := runsB hcne j hj
+      by_cases hji : j = i
+      · subst hji; simp_all [called]
+      · simp_all [upd]
+    · intro hcne hr j hj hnd
+      by_cases hji : j = i
+      · subst hji; simp [notDec] at hnd
+      · simp [upd, hji] at hnd; exact pubB hcne hr j hj hnd
+  | wafterS i hw =>
+    constructor
+    · intro hcne j hj
+      have := runsB hcne j hj
+      by_cases hji : j = i
+      · subst hji; simp_all [called]
+      · simp_all [upd]
+    · intro hcne hr j hj hnd
+      by_cases hji : j = i
+      · subst hji; simp [notDec] at hnd
+      · simp [upd, hji] at hnd; exact pubB hcne hr j hj hnd
+  | dropPool hc ht hd => constructor <;> simp [hc]
+  | wexit i hd hi hw =>
+    have hci := (dropI hd).1
+    constructor <;> simp [hci]
+
+/-- C06: when the caller observes the count at zero, every worker index of the broadcast has executed the
+    task exactly once. -/
+theorem once_per_index (s : Sys) (h : Inv s) (g : GInv s) (hc : s.c = .check) (hz : s.rc = 0) :
+    ∀ j, j < s.n → s.runs j = 1 := by
+  have hcne : s.c ≠ .idle := by simp [hc]
+  intro j hj
+  have hnd := (returns_after_all_calls s h hc hz j hj).1
+  have hsent := h.sentB hcne j (by simp [hc, frontier]; exact hj)
+  have := g.runsB hcne j hj
+  rw [this]
+  cases hw : s.w j <;> simp_all [notDec, sent, called]
+
+/-- C06: if the decrement is a Release RMW and the caller's load an Acquire load, then after the load that
+    reads zero — the step on which `broadcast` returns — the end of every call happens-before the caller. -/
+theorem visible_after_return (s s' : Sys) (h : Inv s) (g : GInv s) (hr : s.relOk = true) (ha : s.acqOk = true)
+    (hc : s.c = .check) (hz : s.rc = 0)
+    (hs' : s' = { s with c := .idle, valid := false, done := s.done + 1,
+                         seen := if s.acqOk then (fun j => s.seen j || s.pub j) else s.seen }) :
+    ∀ j, j < s.n → s'.seen j = true := by
+  have hcne : s.c ≠ .idle := by simp [hc]
+  intro j hj
+  have hnd := (returns_after_all_calls s h hc hz j hj).1
+  have := g.pubB hcne hr j hj hnd
+  subst hs'; simp [ha, this]
+
+#print axioms ginv_step
+#print axioms once_per_index
+#print axioms visible_after_return
 end PoolFull
